@@ -246,10 +246,12 @@ class Side:
     """One cell of the integration entity: reference points on the cell, its coordinate dofs
     (nnodes x 3), and the local index of the entity (facet/vertex) in that cell."""
 
-    def __init__(self, X, xdofs, entity=0):
+    def __init__(self, X, xdofs, entity=0, Xe=None, edim=None):
         self.X = np.asarray(X, dtype=float)
         self.xdofs = np.asarray(xdofs, dtype=float)
         self.entity = int(entity)
+        self.Xe = None if Xe is None else np.asarray(Xe, dtype=float)  # points on the reference integration entity (unpermuted)
+        self.edim = edim
 
 
 class Evaluator:
@@ -305,6 +307,9 @@ class Evaluator:
             side = rside
         s = self._side(side)
         self.nodes_seen.add(type(t).__name__ + (f"/d{k}" if k else ""))
+        if isinstance(t, (C.SpatialCoordinate, C.Jacobian)):
+            if ufl.domain.extract_unique_domain(t).topological_dimension != s.X.shape[1]:
+                raise Unsupported("geometry of a lower-dimensional mesh in a mixed-dimensional form")
         if isinstance(t, C.SpatialCoordinate):
             ce = ufl.domain.extract_unique_domain(t).ufl_coordinate_element()
             gdim = ce.reference_value_shape[0]
@@ -316,7 +321,16 @@ class Evaluator:
             if not rv:
                 raise Unsupported("form argument without reference value (pullback not applied)")
             el = t.ufl_function_space().ufl_element()
-            tab = element_reference_table(el, s.X, k)  # rshape+(tdim,)*k+(P, nd)
+            eldim = el.cell.topological_dimension
+            if eldim != s.X.shape[1]:
+                # a function living on a lower-dimensional mesh (mixed-dimensional form): it is evaluated at the points of the
+                # reference integration entity itself; only values are supported here
+                if k != 0 or s.Xe is None or s.edim != eldim:
+                    raise Unsupported("derivative of / unexpected codimension of a function on a lower-dimensional mesh")
+                Xpts = s.Xe if eldim > 0 else np.zeros((s.X.shape[0], 0))
+                tab = element_reference_table(el, Xpts, 0)
+            else:
+                tab = element_reference_table(el, s.X, k)  # rshape+(tdim,)*k+(P, nd)
             nd = tab.shape[-1]
             if isinstance(t, C.Coefficient):
                 w = self.wvals[t]
@@ -372,6 +386,10 @@ class Evaluator:
             s = self._side(side)
             if isinstance(e, C.CellFacetJacobian):
                 return b(cell_facet_jacobian(self.cellname, s.entity))
+            if isinstance(e, C.CellRidgeJacobian):
+                td_ = tdim_of(self.cellname)
+                v = entity_vertices(self.cellname, td_ - 2, s.entity)
+                return b(np.stack([v[i + 1] - v[0] for i in range(td_ - 2)], axis=1) if td_ > 2 else np.zeros((td_, 0)))
             if isinstance(e, C.ReferenceNormal):
                 return b(reference_normal(self.cellname, s.entity))
             if isinstance(e, C.ReferenceCellVolume):
@@ -584,7 +602,9 @@ class FormOracle:
         self.fd = lower_form(form, complex_mode)
         dom = self.fd.integral_data[0].domain
         domains = {id(idt.domain) for idt in self.fd.integral_data}
-        self.multi_domain = len(domains) > 1 or len(ufl.domain.extract_domains(form)) > 1
+        # several integration domains are not supported; functions on other meshes of the same or lower dimension are
+        self.multi_domain = len(domains) > 1
+        self.mixed_dimensional = len({d.topological_dimension for d in ufl.domain.extract_domains(form)}) > 1
         self.domain = dom
         self.cellname = dom.ufl_cell().cellname
         self.tdim = tdim_of(self.cellname)
@@ -662,9 +682,10 @@ class FormOracle:
                     if edim == self.tdim:
                         Xc = Xq
                     else:
-                        Xp = permute_facet_points(ect, Xq, pc) if edim == self.tdim - 1 else Xq
+                        permuted = edim == self.tdim - 1 or (itype == "ridge" and self.tdim == 3)
+                        Xp = permute_facet_points(ect, Xq, pc) if permuted else Xq
                         Xc = map_entity_points(self.cellname, edim, ent, Xp)
-                    sides[sd] = Side(Xc, data["x"][sd], ent)
+                    sides[sd] = Side(Xc, data["x"][sd], ent, Xe=Xq, edim=edim)
                 info["rules"].append(desc)
                 info["npts"] += len(wq)
                 ev = Evaluator(self.cellname, sides, wq, data["w"], data["c"], arg_dims, interior=interior, dtype=dt)
